@@ -1542,3 +1542,37 @@ M("n84", "neutral", [], "release-id part parser builds the prefixed dict directl
         prefix + "version": version,
         prefix + "type": release_type,
     }'''))
+
+M("c01n", "fire", ["C01", "C05"], "Release forgets its own section name and inherits base_product's",
+  (CI, '''        super(Release, self).__init__(metadata)
+        self._section = "release"
+''', '''        super(Release, self).__init__(metadata)
+'''))
+
+M("c05m", "fire", ["C05"], "option_lookup asks has_option(option, section): no legacy location is ever found",
+  (CO, '''            if self.has_option(section, option):
+                return self.get(section, option)''', '''            if self.has_option(option, section):
+                return self.get(section, option)'''))
+
+M("c05n", "fire", ["C05"], "option_lookup finds the option but does not return it",
+  (CO, '''            if self.has_option(section, option):
+                return self.get(section, option)
+        return default''', '''            if self.has_option(section, option):
+                self.get(section, option)
+        return default'''))
+
+M("c11m", "fire", ["C11"], "ComposeInfo[...] no longer hands out the variant",
+  (CI, '''    def __getitem__(self, name):
+        return self.variants[name]
+
+    def get_variants(self, *args, **kwargs):''', '''    def __getitem__(self, name):
+        self.variants[name]
+
+    def get_variants(self, *args, **kwargs):'''))
+
+M("n85", "neutral", [], "option_lookup as first match or default",
+  (CO, '''        for section, option in section_option_list:
+            if self.has_option(section, option):
+                return self.get(section, option)
+        return default''', '''        return next((self.get(section, option) for section, option in section_option_list
+                     if self.has_option(section, option)), default)'''))
